@@ -480,8 +480,8 @@ type P15v2 struct {
 
 func (P15v2) TableName() string { return "p15" }
 
-// ---- P16 (known finding, corpus only): a float default written in exponent notation whose
-// plain decimal form differs from both the tag text and fmt.Sprint of the value ----
+// ---- P16: a float default written in exponent notation whose plain decimal form differs from both
+// the tag text and fmt.Sprint of the value (re-altered on every migration until repo commit 652c1bd) ----
 type P16 struct {
 	ID uint    `gorm:"primaryKey"`
 	FE float64 `gorm:"default:2.5e-07"`
